@@ -136,6 +136,29 @@ def oracle(orig_t, root, pruned, strict, store_before):
         return f"removed subtree roots {sorted(removed_roots - set(listed))[:4]} are missing from the returned list"
     if not set(listed) <= removed_all:
         return f"the returned list names nodes that were not removed: {sorted(set(listed) - removed_all)[:4]}"
+    # 3b. nothing else is removed: every listed node offends, by its own reason (model: C15_removed_offend)
+    import lang as _lang
+    parent_of = {}
+    for pth, x in gen.nodes_of(orig_t):
+        for k in x[8]:
+            parent_of[k[0]] = x[1]
+    for n, reason in pruned:
+        fam = family(reason)
+        if fam == "unknown":
+            if n.name in mappings:
+                return f"node {n.name} was removed as 'unknown' although it is a known element"
+        elif fam == "notAllowed":
+            pn = parent_of.get(n.id)
+            if pn in mappings and n.name in set(_lang.names(_lang.parse(rulemod.rules_dict[mappings[pn]][1]))):
+                return f"child {n.name} was removed as 'not allowed' although the rule of its parent {pn} allows it"
+        else:
+            if not strict:
+                return f"node {n.name} was removed for failing validation although pruning was not strict"
+            try:
+                validate.node(n)
+                return f"node {n.name} was removed in strict mode although it passes single-node validation (it does not offend)"
+            except MetapypeRuleError:
+                pass
     # 4. registry
     for i in removed_all:
         if Node.get_node_instance(i) is not None:
